@@ -436,43 +436,55 @@ def vkey(v) -> int:
 
 
 def canon(ns, o, sort_sets):
-    """Python object -> JSON value.  sort_sets=False lists a set in its iteration order."""
+    """Python object -> JSON value.  sort_sets=False lists a set in its iteration order.
+    Type IDENTITY is kept: exact builtin classes (a subclass of int/str/list/dict/..., a frozenset, a PurePath that is not
+    the concrete Path class) and Enum / dataclass classes other than the very class objects of this case's namespace
+    (a same-named class from elsewhere) become ["other", ...] and so never compare equal to a well-typed value."""
     import dataclasses
     import enum
     import pathlib
     from collections import OrderedDict
 
+    t = type(o)
     if o is None:
         return ["none"]
-    if isinstance(o, bool):
+    if t is bool:
         return ["bool", o]
     if isinstance(o, enum.Enum):
-        return ["enum", type(o).__name__, o.name]
-    if isinstance(o, int):
+        if ns.get(t.__name__) is t:
+            return ["enum", t.__name__, o.name]
+        return ["other", "foreign-enum:" + t.__module__ + "." + t.__qualname__ + "." + o.name]
+    if t is int:
         return ["int", str(o)]
-    if isinstance(o, float):
+    if t is float:
         return ["float", repr(o)] if float_ok(o) else ["other", "float:" + repr(o)]
-    if isinstance(o, str):
+    if t is str:
         return ["str", o]
-    if isinstance(o, pathlib.PurePath):
+    if t is type(pathlib.Path()):
         return ["path", str(o)]
-    if isinstance(o, list):
+    if t is list:
         return ["list", [canon(ns, x, sort_sets) for x in o]]
-    if isinstance(o, tuple):
+    if t is tuple:
         return ["tup", [canon(ns, x, sort_sets) for x in o]]
-    if isinstance(o, (set, frozenset)):
+    if t is set:
         items = [canon(ns, x, sort_sets) for x in o]
         if sort_sets:
             items.sort(key=vkey)
         return ["set", items]
-    if isinstance(o, dict):
-        return ["dict", isinstance(o, OrderedDict), [[canon(ns, a, sort_sets), canon(ns, b, sort_sets)] for a, b in o.items()]]
+    if t is dict or t is OrderedDict:
+        return ["dict", t is OrderedDict, [[canon(ns, a, sort_sets), canon(ns, b, sort_sets)] for a, b in o.items()]]
     if dataclasses.is_dataclass(o) and not isinstance(o, type):
-        name = type(o).__name__
-        if name in ns["_META"]:
-            return ["dc", ns["_KIND"][name], name,
-                    [[fn, meta, canon(ns, getattr(o, fn), sort_sets)] for fn, meta in ns["_META"][name]]]
-    return ["other", type(o).__name__ + ":" + repr(o)[:80]]
+        name = t.__name__
+        if name in ns["_META"] and ns.get(name) is t:
+            fs = []
+            for fn, meta in ns["_META"][name]:
+                try:
+                    fs.append([fn, meta, canon(ns, getattr(o, fn), sort_sets)])
+                except AttributeError:
+                    fs.append([fn, meta, ["other", "unset-attribute"]])
+            return ["dc", ns["_KIND"][name], name, fs]
+        return ["other", "foreign-dataclass:" + t.__module__ + "." + t.__qualname__]
+    return ["other", t.__module__ + "." + t.__name__ + ":" + repr(o)[:80]]
 
 
 def canon_prim(o):
